@@ -119,9 +119,10 @@ def run(prog, rep):
     got = []
     for b, i, s in nw.stmts():
         for n in walk(s):
-            if n["k"] == "bin" and n["op"] in (">=", "<=") and cv(n["r"]) is not None and root_var(n["l"]) == nw.param_names()[0]:
+            if n["k"] == "bin" and n["op"] in (">=", "<=", ">", "<") and cv(n["r"]) is not None and root_var(n["l"]) == nw.param_names()[0]:
                 got.append((n["op"], cv(n["r"])))
-    okr = sorted(got) == sorted([(">=", min(vals)), ("<=", max(vals))])
+    lo_, hi_ = min(vals), max(vals)
+    okr = any(sorted(got) == sorted(f_) for f_ in ([(">=", lo_), ("<=", hi_)], [(">", lo_ - 1), ("<", hi_ + 1)], [("<", lo_), (">", hi_)], [("<=", lo_ - 1), (">=", hi_ + 1)]))
     rep.ob("C12.1", nw, "range", okr, "the type range test accepts exactly the enumerators" if okr else "range test %s vs enumerators %s" % (got, vals), nw.loc[0])
     rep.floor("C12.1", 4)
 
